@@ -134,7 +134,9 @@ Next == \/ \E m \in Models : Add(m) \/ Replace(m)
         \/ Clear \/ Deploy
         \/ \E nm \in Names : Evaluate(nm)
 \* ... and the process may be started again on a directory of model files
-NextL == Next \/ \E S \in SUBSET Models : LoadDir(S)
+\* (\E S : LoadDir(S) is the same as "any clash-free set of models, loaded": take S = T)
+Restart == \E T \in SUBSET Models : ClashFree(T) /\ Loaded(T)
+NextL == Next \/ Restart
 
 
 ----------------------------------------------------------------------------
